@@ -1182,6 +1182,10 @@ impl SpanPrinter {
         // OK because the biggest FractionalUnit is Hour, and there is always
         // a Unit bigger than hour.
         let split_at = Unit::from(unit).next().unwrap();
+        // The sign has already been (or will be) written by our caller, so
+        // all of the values written below must be non-negative. (Just like
+        // in `print_span_designators_non_fraction`.)
+        let span = span.abs();
         let non_fractional = span.without_lower(split_at);
         let fractional = span.only_lower(split_at);
         self.print_span_designators_non_fraction(&non_fractional, wtr)?;
